@@ -2,7 +2,7 @@
    Property theorems only; proofs live in Proofs/C18_expand.v; the model (Model/C18_expand.v) mirrors
    Model._expand_vectors and is compared with the real code on every run (check_case). *)
 From Coq Require Import String List Arith ZArith.
-From PV Require Import Model.C18_expand Proofs.C18_expand.
+From PV Require Import Model.C18_expand Model.C18_matrix Proofs.C18_expand Proofs.C18_total Proofs.C18_residual Proofs.C18_meta.
 Import ListNotations.
 Open Scope nat_scope.
 
@@ -67,31 +67,76 @@ Proof.
 Qed.
 Print Assumptions C18_attributes.
 
-(* the expansion is defined whenever the names are (component count matches the shape) and every
-   attribute is a scalar or a list of the FULL rank of the index tuple.  This hypothesis carves
-   out exactly the recorded defect class (C18_attributes_refuted). *)
+(* TOTALITY, with the carve-out made exact.  The expansion of a variable is defined whenever its names
+   are (component count matches the shape) and every attribute is a scalar (np.isscalar value or 1x1
+   MX), or an array of exactly the tensor shape of the index: nested list, or DM/MX holding a length-n
+   array as n x 1 column / an n x m array as n x m matrix. *)
 Theorem C18_expand_total (v : uvar) (names : list string) :
   opt_all (map (scalar_name (uname v) (ushape v)) (ndindex (iter_dims (ushape v)))) = Some names ->
-  Forall (attr_full (iter_dims (ushape v))) (uattrs v) ->
+  Forall (attr_ok (iter_dims (ushape v))) (uattrs v) ->
   exists ex, expand_var v = Some ex.
-Proof. exact (expand_total v names). Qed.
+Proof. exact (expand_total_ok v names). Qed.
 Print Assumptions C18_expand_total.
 
-(* KNOWN DEFECT (mirrored by the model): `Sub s[2]` whose class declares `parameter Real k[2] =
-   {3, 4}`: the flattened s.k has shape ((2,),(2,)), its value is the rank-1 list [3, 4]; indexing
-   it with the rank-2 index raises, so the property "every array inside a component array becomes
-   scalars carrying the matching element" fails on this input. *)
+(* The generator hands over scalars, arrays of the whole flattened symbol's shape, or arrays of the
+   declared member's own shape (declared inside the component's class, or `each`).  Among those, the
+   ONLY ones outside `attr_ok` are array attributes of the member's own rank on a variable that lives
+   in a component ARRAY (attribute rank < index rank): exactly the two known findings. *)
+Theorem C18_carveout_exact (s : vshape) (a : attr) :
+  attr_declared s a -> attr_ok (iter_dims s) a \/ lowrank_in_component_array s a.
+Proof. exact (carveout_exact s a). Qed.
+Print Assumptions C18_carveout_exact.
+
+Theorem C18_no_component_array_total (s : vshape) (a : attr) :
+  outer_dims s = [] -> attr_declared s a -> attr_ok (iter_dims s) a.
+Proof. exact (no_component_array_total s a). Qed.
+Print Assumptions C18_no_component_array_total.
+
+(* KNOWN DEFECT, tag list-attribute-in-component-array (mirrored by the model): every list attribute
+   of lower rank than the index makes the expansion raise, whatever the sizes *)
+Theorem C18_lowrank_list_refuted (v : uvar) (l : nlist) (d : list nat) :
+  In (AtList l) (uattrs v) -> shaped d l -> length d < length (iter_dims (ushape v)) ->
+  ndindex (iter_dims (ushape v)) <> [] -> expand_var v = None.
+Proof. exact (lowrank_list_refuted v l d). Qed.
+Print Assumptions C18_lowrank_list_refuted.
+
+(* KNOWN DEFECT, tag dm-attribute-in-component-array: a length-n member (n >= 2) whose attribute is an
+   n x 1 DM, inside `Sub s[c]` *)
+Theorem C18_lowrank_dm_refuted (v : uvar) (n c : nat) rows :
+  In (AtMat false n 1 rows) (uattrs v) -> iter_dims (ushape v) = [c; n] -> 0 < c -> 2 <= n ->
+  expand_var v = None.
+Proof. exact (lowrank_dm_refuted v n c rows). Qed.
+Print Assumptions C18_lowrank_dm_refuted.
+
+(* the recorded replay inputs as witnesses: `Sub s[2]` with `parameter Real k[2] = {3, 4}` and with
+   `parameter Real k[3] = fill(2.5, 3)` inside Sub; both attributes are well-formed arrays of the
+   member's own shape *)
 Theorem C18_attributes_refuted :
   exists v, ushape v = Nested [[2]; [2]]
             /\ uattrs v = [AtList (NNode [NLeaf (ANum 3); NLeaf (ANum 4)])]
-            /\ shaped [2] (NNode [NLeaf (ANum 3); NLeaf (ANum 4)])
+            /\ lowrank_in_component_array (ushape v) (AtList (NNode [NLeaf (ANum 3); NLeaf (ANum 4)]))
             /\ expand_var v = None.
 Proof.
   exists (mk_uvar "s.k" (Nested [[2]; [2]]) (2, 2) [AtList (NNode [NLeaf (ANum 3%Z); NLeaf (ANum 4%Z)])]).
-  repeat split.
+  repeat split; try discriminate.
   - cbn. eexists. split; [reflexivity|]. split; [reflexivity|]. repeat constructor; eexists; reflexivity.
+  - cbn. auto.
 Qed.
 Print Assumptions C18_attributes_refuted.
+
+Theorem C18_attributes_refuted_dm :
+  exists v a, ushape v = Nested [[2]; [3]] /\ uattrs v = [a]
+            /\ a = AtMat false 3 1 [[ANum 160]; [ANum 160]; [ANum 160]]
+            /\ lowrank_in_component_array (ushape v) a
+            /\ expand_var v = None.
+Proof.
+  exists (mk_uvar "s.k" (Nested [[2]; [3]]) (2, 3) [AtMat false 3 1 [[ANum 160%Z]; [ANum 160%Z]; [ANum 160%Z]]]).
+  eexists. repeat split; try discriminate.
+  - repeat constructor.
+  - left. auto.
+  - cbn. auto.
+Qed.
+Print Assumptions C18_attributes_refuted_dm.
 
 (* outputs: the array's entry is replaced, in place and in order, by its scalars *)
 Theorem C18_outputs_in_place (pre post : list string) (x : string) (new : list string) :
@@ -106,19 +151,82 @@ Theorem C18_delay_order (f : string -> list string) (ds : list string) :
 Proof. exact (delay_order f ds). Qed.
 Print Assumptions C18_delay_order.
 
-(* PARTIAL: expanded residual = unexpanded residual under the renaming, for an element-wise
-   expression language (element references, scalars, constants, + * -).  Missing: CasADi's matrix
-   operations (mtimes, transpose, map), `substitute` itself and the vec/vertsplit splitting of
-   matrix equations; those are covered by the residual oracle of the check, not by this theorem. *)
-Theorem C18_residual_partial
-  (dims : string -> nat * nat) (names : string -> list string)
-  (envU : string -> nat -> nat -> Z) (envS : string -> Z) :
-  (forall v, length (names v) = fst (dims v) * snd (dims v)) ->
-  (forall v i j, i < fst (dims v) -> j < snd (dims v) ->
-      envU v i j = envS (nth (j + i * snd (dims v)) (names v) EmptyString)) ->
-  forall e, in_range dims e -> evalE envS (subst dims names e) = evalU envU envS e.
-Proof. exact (residual_elementwise dims names envU envS). Qed.
-Print Assumptions C18_residual_partial.
+(* RESIDUAL, matrix level.  CasADi matrices are (rows, cols, column-major list); expressions: array
+   symbols (also der(..) and delay-state symbols), scalar symbols, DM constants, element-wise + - .*,
+   scalar x array, unary minus, mtimes, transpose, slices / element references, reshape, vec, vertsplit.
+   `expand` replaces every array symbol by reshape(vertcat(scalars), (n2, n1)).T as the code does.
+   For every point (rm, rs) of the unexpanded model, rho' (each scalar name |-> the corresponding
+   element, every other scalar unchanged) is a point of the expanded model at which the scalar
+   equations vertsplit(vec(expand eq)), in order, evaluate to veccat of the unexpanded equations, i.e.
+   dae_residual_function of the expanded model = that of the unexpanded model under the renaming.
+   Hypotheses: the array symbols have their declared shapes and n1*n2 names each; no two elements share
+   a name (C18_bijection gives this per variable, see C18_residual_names); scalar symbols of the
+   equations are not among the new names.
+   Not modelled: for-loop `map` nodes, if_else, function calls, IEEE rounding (values are integers). *)
+Theorem C18_residual (dims : string -> nat * nat) (names : string -> list string)
+        (rm rm0 : string -> zmat) (rs : string -> Z) (vars : list string) (eqs : list mexpr) :
+  NoDup (flat_map names vars) ->
+  (forall v, In v vars ->
+     zr (rm v) = fst (dims v) /\ zc (rm v) = snd (dims v) /\ zwf (rm v)
+     /\ length (names v) = fst (dims v) * snd (dims v)) ->
+  (forall e v, In e eqs -> In v (mvars e) -> In v vars) ->
+  (forall e s, In e eqs -> In s (msyms e) -> ~ In s (flat_map names vars)) ->
+  let rs' := rho' names rm vars rs in
+  map (fun s => zget (eval rm0 rs' s) 0 0)
+      (flat_map (fun e => split_equation dims names (length (zd (eval rm rs e))) e) eqs)
+  = flat_map (fun e => zd (eval rm rs e)) eqs.
+Proof. exact (residual_under_renaming dims names rm rs rm0 vars eqs). Qed.
+Print Assumptions C18_residual.
+
+(* the same per expression, for any expanded point rs' that satisfies the renaming: the whole matrix
+   value is preserved (shape and every entry) *)
+Theorem C18_residual_matrix (dims : string -> nat * nat) (names : string -> list string)
+        (rm rm0 : string -> zmat) (rs rs' : string -> Z) (e : mexpr) :
+  (forall v, In v (mvars e) -> renamed dims names rm rs' v) -> scalars_kept rs rs' e ->
+  eval rm0 rs' (expand dims names e) = eval rm rs e.
+Proof. exact (residual_matrix dims names rm rs rm0 rs' e). Qed.
+Print Assumptions C18_residual_matrix.
+
+(* the names generated by the model of _expand_vectors for ANY variable - 1-D, 2-D, inside component
+   arrays, der(...) wrapped, delay state - are n1*n2 pairwise distinct names, the k-th being the name of
+   the k-th np.ndindex tuple: what C18_residual asks of `names` *)
+Theorem C18_residual_names (v : uvar) ex (n1 n2 : nat) :
+  expand_var v = Some ex -> product (iter_dims (ushape v)) = n1 * n2 ->
+  length (map fst ex) = n1 * n2 /\ NoDup (map fst ex)
+  /\ map Some (map fst ex) = map (scalar_name (uname v) (ushape v)) (ndindex (iter_dims (ushape v))).
+Proof. exact (model_names_fit v ex n1 n2). Qed.
+Print Assumptions C18_residual_names.
+
+(* non-vacuity of C18_residual: `Sub s[2]` with `Real x[2]` (a 2 x 2 symbol), its derivative, a vector w and
+   a delay state, with the names the model generates; equations use transpose, scalar x array, mtimes, a
+   slice, .* and vertsplit.  The hypotheses hold and the (integer) residual is the same list. *)
+Example C18_residual_example :
+  (NoDup (flat_map ex_names ex_vars)
+   /\ (forall v, In v ex_vars ->
+         zr (ex_rm v) = fst (ex_dims v) /\ zc (ex_rm v) = snd (ex_dims v) /\ zwf (ex_rm v)
+         /\ length (ex_names v) = fst (ex_dims v) * snd (ex_dims v))
+   /\ (forall e v, In e ex_eqs -> In v (mvars e) -> In v ex_vars)
+   /\ (forall e s, In e ex_eqs -> In s (msyms e) -> ~ In s (flat_map ex_names ex_vars))
+   /\ flat_map ex_names ex_vars
+      = ["s[1].x[1]"; "s[1].x[2]"; "s[2].x[1]"; "s[2].x[2]";
+         "der(s[1].x[1])"; "der(s[1].x[2])"; "der(s[2].x[1])"; "der(s[2].x[2])";
+         "_pymoca_delay_0[1,1]"; "_pymoca_delay_0[2,1]"; "w[1]"; "w[2]"]%string)
+  /\ flat_map (fun e => zd (eval ex_rm ex_rs e)) ex_eqs
+     = [-1607; -1668; -1623; -1684; -908022; -938132; -475]%Z.
+Proof. split; [exact example_hypotheses | vm_compute; reflexivity]. Qed.
+Print Assumptions C18_residual_example.
+
+(* METADATA: in a category of a model without delay states, the rows of the expanded model's metadata
+   (what variable_metadata_function stacks; repmat is the identity on 1x1 symbols) are, for each variable
+   of the unexpanded model in order, one row per element in np.ndindex order holding the selected
+   element of every attribute (a scalar variable keeps its own row).  PARTIAL with respect to DESIGN's
+   link to C13: C13's metadata model (Qc cells, python tags) is not imported; the statement is in C18's
+   vocabulary (the check evaluates the real variable_metadata_function against the declared elements). *)
+Theorem C18_metadata_rows_partial (g : list uvar) acc s acc' s' :
+  fold_left step_var g (Some (acc, s)) = Some (acc', s') -> st_delay s = [] ->
+  map snd acc' = map snd acc ++ flat_map (fun v => rows_of v []) g /\ st_delay s' = [].
+Proof. exact (metadata_rows_group g acc s acc' s'). Qed.
+Print Assumptions C18_metadata_rows_partial.
 
 (* non-vacuity: a der() array inside a component array, an output renamed in place, a delay state *)
 Example C18_example :
